@@ -163,6 +163,30 @@ class VecF(Function):
         return self.values(X).reshape(*lead, len(self.comps))
 
 
+class ModelFault(Exception):
+    """the user's model fails at one evaluation (fault injection of the harnesses)"""
+
+
+def arm_fault(f, k):
+    """the k-th call (counted from 1 over eval and eval_vectorized together) of the user function raises ModelFault once; k <= 0 only counts.
+    Returns the counter dict {"n": calls so far, "k": k}."""
+    st = {"n": 0, "k": int(k)}
+    cls = type(f)
+
+    def wrap(name):
+        orig = getattr(cls, name)
+
+        def call(coordinates):
+            st["n"] += 1
+            if st["n"] == st["k"]:
+                raise ModelFault("model evaluation number %d failed" % st["k"])
+            return orig(f, coordinates)
+        setattr(f, name, call)
+    wrap("eval")
+    wrap("eval_vectorized")
+    return st
+
+
 def random_genz(rng, d, kind=None):
     """One JSON-able Genz-family / smooth component spec drawn from rng (random.Random)."""
     kind = kind or rng.choice(["corner", "prodpeak", "osc", "disc", "c0", "gauss", "smooth"])
